@@ -93,8 +93,7 @@ CHECKS["C13"] = {
              "alphabet weighted to '%', '=', hex/non-hex, the gateway's body readers with dishonest length fields / corrupt base64 / bodies around the limit, and the gateway's "
              "error-code extraction on hostile error values (nil Unwrap/Cause, cycles, wrong-arity Code methods, typed nil), and a live server (manager + stream dispatch) fed 1..20 arbitrary frames by a wire-level peer "
              "(plausible and arbitrary id progressions, kinds 0..8/33/63, control bits, unfinished packets, junk payloads, raw garbage; optionally after a well-formed invoke) which must never panic, and must shut down completely when the peer disconnects. "
-             "The thorough tier adds coverage-guided native fuzzing (go test -fuzz) of ParseFrame, the reader, metadata Decode, UnmarshalError and the metadata header parser with the same oracles inside the targets. Non-trivial: the input reaches past the first validation branch "
-             "(>= 4 bytes for frames/reader, >= 2 bytes for metadata, >= 1 escape for headers, any error outcome for the gateway)."),
+             "The thorough tier adds coverage-guided native fuzzing (go test -fuzz) of ParseFrame, the reader, metadata Decode, UnmarshalError and the metadata header parser with the same oracles inside the targets. stats_stress: one server with CollectStats serves 2..6 connections at once over net.Pipe on real goroutines, 20..200 calls each under rpc names chosen by the peers (shared by all, by two, or never seen before); no input takes the process down (a runtime abort such as 'concurrent map read and map write' kills the shard and is reported), every call is answered, the statistics hold exactly one entry per name; in the thorough tier also under the race detector. Non-trivial: the input reaches past the first validation branch (>= 4 bytes for frames/reader, >= 2 bytes for metadata, >= 1 escape for headers, any error outcome for the gateway)."),
     "assumptions": ["packet dispatch in stream and manager is driven by a wire-level peer sending arbitrary frame sequences (sub-check manager_frames); a panic on a library goroutine kills the shard and is reported from its stack trace",
                     "allocation is bounded by observing runtime.MemStats.TotalAlloc around the call (gateway) and buffer capacities / largest requested read (reader)"],
     "subs": [
@@ -110,6 +109,8 @@ CHECKS["C13"] = {
         {"test": "TestC14Limits", "prop": "C13/limits", "pkg": "./http", "quick": 200, "thorough": 4000, "shards_quick": 4, "shards_thorough": 8, "env": {"VERIF_ID_OVERRIDE": "C13"}},
         {"test": "TestC13Bodies", "prop": "C13/http_bodies", "pkg": "./http", "quick": 40000, "thorough": 2000000, "shards_quick": 4, "shards_thorough": 8},
         {"test": "TestC13ManagerFrames", "prop": "C13/manager_frames", "pkg": "./conn", "quick": 16000, "thorough": 600000, "shards_quick": 16, "shards_thorough": 16, "gomaxprocs": 1},
+        {"test": "TestC13StatsStress", "prop": "C13/stats_stress", "pkg": "./pool", "quick": 160, "thorough": 4000, "shards_quick": 4, "shards_thorough": 8},
+        {"test": "TestC13StatsStress", "prop": "C13/stats_stress", "pkg": "./pool", "thorough": 800, "shards_thorough": 8, "race": True, "thorough_only": True},
         {"fuzz": "FuzzParseFrame", "pkg": "./wire", "prop": "C13/fuzz_parseframe", "secs": 45},
         {"fuzz": "FuzzReader", "pkg": "./wire", "prop": "C13/fuzz_reader", "secs": 60},
         {"fuzz": "FuzzMetadataDecode", "pkg": "./meta", "prop": "C13/fuzz_metadata_decode", "secs": 45},
@@ -126,7 +127,7 @@ CHECKS["C10"] = {
              "code attached under 0..6 wrapper layers of seven kinds incl. opaque ones and a second, different code attached further out (the outermost visible code is the error's code); hostile shapes) through drpcerr.Code, MarshalError, UnmarshalError: layout is 8-byte big-endian code + message, "
              "message and code survive, Code finds the attached code at any transparent depth (and 0 under an opaque layer). Non-trivial: depth >= 2, code >= 2^32, message >= 128 bytes or with special bytes, or a hostile shape. "
              "End-to-end half: a hand-written service description with the four method shapes is registered with the real mux and served over the simulated connection under drawn delivery schedules; the handler sends k in 0..4 messages and then returns nil or an error from the grammar (also together with a response value), "
-             "or the dispatcher itself fails (unknown RPC, request the encoding rejects - expected text obtained by calling the mux directly with a stub stream). The client error's Error() must equal the handler error's Error() byte for byte, its code the spec-derived code, the k messages arrive first in order, a nil-returning handler never yields a client error, and a probe RPC succeeds afterwards. "
+             "or the dispatcher itself fails (an rpc name the server does not know, drawn from names with '%', quotes, NUL and non-UTF-8 bytes - expected text 'protocol error: unknown rpc: ' + the quoted name, fixed independently of the mux; or a request the encoding rejects - expected text obtained by calling the mux directly with a stub stream). The client error's Error() must equal the handler error's Error() byte for byte, its code the spec-derived code, the k messages arrive first in order, a nil-returning handler never yields a client error, and a probe RPC succeeds afterwards. "
              "Generated-stubs half (C10/generated_stubs): for a drawn service (1..2 services, 1..5 methods of any shape, three protolibs) the plugin built from /repo generates client and server; the driver's handlers fail every method on request (drawn text, code, after 0..3 responses) and, on a second connection, every method is called on a server that does not know the service with a request of 0..2 MiB "
              "(the dispatcher fails the call as soon as it has the invoke, possibly while the client still writes the request). The error the *generated client* hands to its caller (from the stub, Recv or CloseAndRecv) must have exactly the handler's / dispatcher's text and code, responses sent before the failure arrive first, and every method round-trips afterwards."),
     "assumptions": ["chains deeper than 99 layers are don't-care for the code (the unwrap loop is bounded at 100); only termination and message identity are asserted there"],
@@ -276,7 +277,7 @@ CHECKS["C05"] = {
              "Oracle per fault run (flush mode): no scripted call is still inside the library at quiescence; the call whose own transport write failed returns an error; sends/invokes/new-streams issued after the failure fail; "
              "Closed() is closed and ServeOne has returned; no library goroutine remains; each transport closed at most once; every message delivered before the failure is a correct prefix on the right stream. "
              "Each fault run is one evaluation (sub-check fault_at_k); non-trivial = the fault actually fired. Distinct by (end, k, kind, trace, workload). " 
-             "write_only: after 0..2 undisturbed calls only the send direction of the client transport fails (plain error, an error wrapping io.EOF, io.ErrClosedPipe) while its reads stay pending; the unary Invoke, NewStream or stream send that hits the failing write must return an error instead of waiting, and when that ended the call (Invoke, NewStream) a further call must not queue up behind it; or only the send direction of the server transport fails: the server must give the connection up and the client's call ends."),
+             "write_only: after 0..2 undisturbed calls only the send direction of the client transport fails (plain error, an error wrapping io.EOF, io.ErrClosedPipe) while its reads stay pending; the unary Invoke, NewStream or stream send that hits the failing write must return an error instead of waiting, the connection must then report itself closed, a receive on the stream whose send failed must fail instead of waiting for an answer that cannot come, and a further call must end with an error instead of queueing up; or only the send direction of the server transport fails: the server must give the connection up and the client's call ends."),
     "assumptions": E3_ASSUME + ["fault model: once a transport end has failed, that call and every pending and later I/O call on that end fails (a dead socket); a write that fails once and then works again is not generated",
                                 "a receive issued after the failure may still return messages that reached that side before it; only absence of hangs and prefix correctness are demanded of receives"],
     "subs": [
@@ -294,7 +295,7 @@ CHECKS["C12"] = {
              "transport is FROZEN. Oracle at quiescence: Close returned, and no Close call returned before the transport's Close had; every client (resp. handler) call returned; Closed() fired; the transport's Close was called exactly once; contexts of the active streams are done; calls "
              "issued afterwards fail. Then bytes move again: the other side shuts down too, both transports closed exactly once, no goroutine with a storj.io/drpc frame remains. "
              "serve: drpcserver.Serve on an in-memory listener with 0..3 accepted connections in drawn states (idle, handler blocked in Recv, handler blocked in Send on a stalled transport, finished RPC), optionally one more connection "
-             "offered at the instant of the stop (Serve held right after Accept returned it, or Accept itself still returning it when the stop happens); Serve is stopped by context cancel or listener failure. Oracle recorded by the goroutine that called Serve at the instant it returns: every accepted transport closed exactly once and no ServeOne goroutine alive. "
+             "offered at the instant of the stop (Serve held right after Accept returned it, or Accept itself still returning it when the stop happens); Serve is stopped by context cancel or listener failure. A drawn connection may also have been left by its client before the stop (the server side's manager has then shut itself down), and closing the server-side transports may take time (Close held by the harness after the pending I/O was let go). Oracle recorded by the goroutine that called Serve at the instant it returns: every accepted transport closed exactly once - the Close call returned, not merely begun - and no ServeOne goroutine alive. "
              "Non-trivial: operations in flight at the close (close); a running handler or a late connection (serve)."),
     "assumptions": E3_ASSUME + ["handlers only block inside drpc calls", "with SoftCancel a cancelled serving context first sends a cancel packet (known finding F13, see C04): the simulated transport then accepts, but never delivers, the server's bytes"],
     "subs": [
@@ -362,7 +363,7 @@ CHECKS["C19"] = {
              "stress: 1..4 setters (each with its own non-nil error) and 1..4 observers on real goroutines, 50..400 fresh signals per case; observers poll Get / IsSet+Err / the channel until they see the signal set, then Wait; "
              "exactly one Set returns true, an observer never sees 'set' with a nil error nor any error but the winner's, a closed channel implies a visible error (the interleavings inside the lock-free fast paths, which have no scheduling point). "
              "chan_stress: 1..4 first users (Get) and one Close start together on a fresh lazy channel, 100..1000 fresh channels per case: every Get returns the same non-nil channel and it is closed once Close has returned. "
-             "Non-trivial: every enumerated program; a random case with >= 4 scheduling steps; a stress case with >= 2 setters / getters. Distinct by program + schedule."),
+             "In the enumerated and random schedules 'thereafter' begins with the first call that returned having seen the signal set (a Set, or a Get/IsSet/poll/Wait that reported it, or an Err that returned an error): every call that starts later must see it set too. Non-trivial: every enumerated program; a random case with >= 4 scheduling steps; a stress case with >= 2 setters / getters. Distinct by program + schedule."),
     "assumptions": ["interleavings are enumerated between scheduling points, not between individual memory operations; weak-memory reorderings of the atomics are outside this check",
                     "misuse by the channel contract is not generated: double Chan.Close, Send on a closed Chan, Full concurrently with Send/Recv"],
     "subs": [
@@ -428,7 +429,7 @@ CHECKS["C17"] = {
              "near-colliding identifiers (A, A_B, a_b, Ab, get_item, listItems, Sync_All, Do_It2, ...), all four streaming combinations, request/response types that are local messages, a message imported from another Go package (named other, context or drpc - names the generated code also imports), or a well-known type, "
              "plugin options protolib default/custom (also under an import path ending in /proto)/github.com/gogo/protobuf and json on/off, optionally a second .proto file of the same Go package (with a service of its own) generated by the same plugin invocation. protoc-gen-go (module cache; protoc-gen-gogo from the module cache for the gogo protolib, whose messages must be gogo messages: the well-known type is replaced by a local message there) and protoc-gen-go-drpc (built from /repo each run) are fed the CodeGeneratorRequest; the harness independently derives, from the descriptor alone, the expected RPC strings, "
              "Go identifiers and method signatures and emits a driver: a server implementation with exactly those signatures, mux registration, Description checks (NumMethods, Method(i) rpc string, Method(n) not ok) and one client call per method over a real drpcconn/drpcserver pair (unary and server-streaming calls with a local request type are preceded by a request the encoding refuses to marshal - a proto3 string that is not valid UTF-8 - after which the normal call must still go through) "
-             "through a connection wrapper that records the RPC name each stub uses. Verdict: go vet of generated code + driver succeeds, Register returns nil, every method round-trips, client and description RPC strings equal '/'+package.Service+'/'+Method. "
+             "through a connection wrapper that records the RPC name each stub uses; every server-streaming method is also received with the generated RecvMsg into one reused message (a value followed by an empty one: the second receive must leave the empty one). Verdict: go vet of generated code + driver succeeds, Register returns nil, every method round-trips, client and description RPC strings equal '/'+package.Service+'/'+Method. "
              "Non-trivial: >= 2 services, a streaming method, or an identifier that needs mangling. Distinct by descriptor."),
     "assumptions": ["descriptors, not .proto text, are explored: protoc's own parsing and validation are outside the loop",
                     "descriptors that protoc-gen-go itself maps to colliding Go identifiers are not generated; collisions produced only by the drpc plugin's naming scheme are known finding F12 (excluded by construction, replayed each run)",
